@@ -169,11 +169,65 @@ func ZZH_C11_RefsAfterRedefinition() {
 			err = d.AddFooter(kind, "t")
 		}
 		zzvAssert(err == nil, "header/footer call succeeds")
-		if i == 1 && zzvBool() {
-			_, e := d.AddImageFromData(zzhPNG, "p.png", ImageFormatPNG, 10, 10, nil)
-			zzvAssume(e == nil)
+		if i < 2 {
+			// other calls in between: a picture (a relationship), body content after the section
+			// settings, page settings
+			switch zzvChoice(4) {
+			case 1:
+				_, e := d.AddImageFromData(zzhPNG, "p.png", ImageFormatPNG, 10, 10, nil)
+				zzvAssume(e == nil)
+			case 2:
+				d.AddParagraph("body text")
+			case 3:
+				zzvAssume(d.SetPageMargins(20, 20, 20, 20) == nil)
+			}
 		}
 		zzhCheckRefs(d)
+		nSect := 0
+		for _, e := range d.Body.Elements {
+			if _, is := e.(*SectionProperties); is {
+				nSect++
+			}
+		}
+		zzvAssert(nSect == 1, "the body holds one section-settings element carrying all definitions")
+	}
+	// the saved package resolves the references as well
+	data, err := d.ToBytes()
+	zzvAssert(err == nil, "ToBytes succeeds")
+	pkg, ok := zzhReadZipBytes(data)
+	zzvAssert(ok, "the package is a readable archive")
+	zzhCheckPackageRels(pkg)
+	es, _ := zzhParse(pkg["word/document.xml"])
+	for _, kind := range zzhKinds {
+		hn, fn := 0, 0
+		for _, e := range es {
+			if e.Name == "headerReference" && e.Attr("type") == string(kind) {
+				hn++
+			}
+			if e.Name == "footerReference" && e.Attr("type") == string(kind) {
+				fn++
+			}
+		}
+		zzvAssert(hn <= 1 && fn <= 1, "the saved section settings reference at most one header and one footer per kind")
+	}
+	sp := d.getSectionProperties()
+	for _, r := range sp.HeaderReferences {
+		found := false
+		for _, e := range es {
+			if e.Name == "headerReference" && e.Attr("type") == r.Type && e.Attr("id") == r.ID {
+				found = true
+			}
+		}
+		zzvAssert(found, "every header definition is written to the saved section settings")
+	}
+	for _, r := range sp.FooterReferences {
+		found := false
+		for _, e := range es {
+			if e.Name == "footerReference" && e.Attr("type") == r.Type && e.Attr("id") == r.ID {
+				found = true
+			}
+		}
+		zzvAssert(found, "every footer definition is written to the saved section settings")
 	}
 	// relationship ids stay unique in the document relationship list
 	rels := d.documentRelationships.Relationships
